@@ -972,8 +972,12 @@ def wrapper_stream(ctx, RN, rng):
     if not netc.flagComplex or Z.shape != (5, 5):
         ctx.fail({"kind": "wrapper", "factory": "SmallComplexNetwork"},
                  "SmallComplexNetwork() is not a complex 5-node network", {})
+    wbad = []
     complex_check(ctx, RN, rng, Ac, Z, "SmallComplexNetwork()",
-                  make=lambda: quiet(RN.SmallComplexNetwork))
+                  make=lambda: quiet(RN.SmallComplexNetwork),
+                  model=common.driver(ctx.pid, [cnet_request(Ac, Z)])[0], cbad=wbad)
+    ctx.obligation("correspondence: Lean field model == ResNetwork.SmallComplexNetwork() "
+                   "(9 observables)", "correspondence", not wbad, str(wbad[:2]))
 
 
 def disconnected_stream(ctx, rng, count):
@@ -1298,7 +1302,35 @@ def stress_stream(ctx, RN, rng, count):
                       "observed": obs, "fresh": exp})
 
 
+def cnet_request(A, Z):
+    Z = np.asarray(Z).astype(complex)
+    n = len(A)
+    re = [[Fr(float(Z[i, j].real)) for j in range(n)] for i in range(n)]
+    im = [[Fr(float(Z[i, j].imag)) for j in range(n)] for i in range(n)]
+    return f"cnet {n} {enc_adj(A)} {enc_mat(re)} {enc_mat(im)}"
+
+
+def parse_cnet(ans):
+    """answer of the driver's `cnet` request -> dict of complex numpy values (None if refused)"""
+    if ans.startswith("undefined") or ans == "bad-request":
+        return None
+    d = dict(kv.split("=", 1) for kv in ans.split("|"))
+    out = {}
+    for k, v in d.items():
+        re, im = v.split("&")
+        if ";" in re or k in ("adm", "lap", "R", "er"):
+            a, b = p_mat(re), p_mat(im)
+            out[k] = np.array([[complex(float(x), float(y)) for x, y in zip(r1, r2)]
+                               for r1, r2 in zip(a, b)])
+        elif k in ("avg", "gc"):
+            out[k] = complex(float(Fr(re)), float(Fr(im)))
+        else:
+            out[k] = np.array([complex(float(x), float(y)) for x, y in zip(p_vec(re), p_vec(im))])
+    return out
+
+
 def complex_stream(ctx, RN, rng, count):
+    todo = []
     for _ in range(count):
         n = rng.randrange(2, 7)
         kind = rng.choice(["path", "bundle+direct", "random", "random", "cycle"])
@@ -1315,11 +1347,50 @@ def complex_stream(ctx, RN, rng, count):
         if rng.random() < 0.25:        # extreme but exact common scale
             Z = Z * 2.0 ** rng.choice([-40, -20, 20, 40])
         zdt = rng.choice([complex, complex, np.complex64])
-        complex_check(ctx, RN, rng, A, Z.astype(zdt), kind)
+        todo.append((A, Z.astype(zdt), kind))
+    answers = pdriver(ctx.pid, [cnet_request(A, Z) for A, Z, _ in todo])
+    cbad = []
+    for (A, Z, kind), ans in zip(todo, answers):
+        complex_check(ctx, RN, rng, A, Z, kind, model=ans, cbad=cbad)
+    ctx.obligation(f"correspondence: Lean field model at the Gaussian rationals (Model/CircuitK) == "
+                   f"complex ResNetwork: admittance, Laplacian, R, effective impedance, average, "
+                   f"closeness, admittive degree, local / global clustering ({len(todo)} networks, "
+                   f"complex128 and complex64)", "correspondence", not cbad,
+                   "\n".join(map(str, cbad[:5])))
+    ctx.extra["complex_networks_compared"] = len(todo)
 
 
-def complex_check(ctx, RN, rng, A, Z, kind, make=None):
-    """one complex-impedance network (built by `make()` if given, e.g. a public factory)"""
+def complex_model_diff(net, n, m, low):
+    """names of the observables of a complex network that differ from the exact model values"""
+    bad = []
+
+    def cmp(name, x, tol, scale):
+        # complex64 caller arrays: `1./resistances[i, j]` is a single-precision division
+        tol = max(300 * tol, 3e-6) if low else tol
+        x = np.asarray(x, dtype=complex)
+        q_ = np.asarray(m[name], dtype=complex)
+        if x.shape != q_.shape or not np.all(np.isfinite(x)) or \
+                np.abs(x - q_).max() > tol * scale:
+            bad.append(name)
+    ys = np.abs(m["adm"]).max()
+    rs = np.abs(m["R"]).max()
+    cmp("adm", quiet(net.get_admittance), 1e-12, ys)
+    cmp("lap", quiet(net.admittance_lapacian), 1e-12, ys)
+    cmp("R", quiet(net.get_R), 1e-7, rs)
+    cmp("er", [[quiet(net.effective_resistance, a, b) for b in range(n)] for a in range(n)],
+        1e-7, rs)
+    cmp("avg", quiet(net.average_effective_resistance), 1e-7, rs)
+    cmp("ercc", [quiet(net.effective_resistance_closeness_centrality, a) for a in range(n)],
+        1e-6, np.abs(m["ercc"]).max())
+    cmp("ad", quiet(net.admittive_degree), 1e-9, ys)
+    cmp("lc", quiet(net.local_admittive_clustering), 1e-9, max(np.abs(m["lc"]).max(), ys * ys / n))
+    cmp("gc", quiet(net.global_admittive_clustering), 1e-9, max(abs(m["gc"]), ys * ys / n))
+    return bad
+
+
+def complex_check(ctx, RN, rng, A, Z, kind, make=None, model=None, cbad=None):
+    """one complex-impedance network (built by `make()` if given, e.g. a public factory);
+    `model`: the Lean field model's answer for it (correspondence, recorded in `cbad`)"""
     for _once in (0,):
         n = len(A)
         low = Z.dtype == np.complex64
@@ -1343,6 +1414,14 @@ def complex_check(ctx, RN, rng, A, Z, kind, make=None):
         except Exception as ex:  # noqa
             fail("exception", f"complex ResNetwork raised {type(ex).__name__}: {ex}")
             continue
+        if model is not None:
+            m = parse_cnet(model)
+            if m is None:
+                cbad.append(("model refuses", enc_adj(A), Z.tolist(), model[:60]))
+            else:
+                d = complex_model_diff(net, n, m, low)
+                if d:
+                    cbad.append((d, enc_adj(A), Z0.tolist(), str(Z0.dtype)))
         Y = np.where(np.array(A) != 0, 1.0 / np.where(Z == 0, 1, Z), 0)
         L = np.diag(Y.sum(axis=1)) - Y
         G = np.zeros((n, n), dtype=complex)
